@@ -10,17 +10,22 @@
   server does with a request path. `Generated.C16.histories` are the version histories of every
   endpoint constant of the five API crates, re-extracted from the running code on every check.
 
-  What is NOT proven here: the macro-generated `try_into_http_request` / `try_from_http_request`
-  / response glue (query strings, headers, bodies). That part of the property is covered by
-  round-trip oracles on the real code only (see `props/C16.json`).
+  The second half of the file is about the code the `#[request]` / `#[response]` macros generate
+  (`Model/EndpointGlue.lean`): `request_roundtrip_partial`, `response_roundtrip_partial`,
+  `glue_no_panic`, the reference query-string codec, and the recorded findings F17–F19 as
+  full-strength statement / `_partial` theorem / machine-checked witness on the model.
+  What is NOT proven: that the model is the code (that is the differential check, see
+  `props/C16.json`), and the libraries behind the parameters (`serde_json`, `serde_html_form`,
+  `http`) beyond the reference form codec.
 -/
 import RumaModel.Lemmas.Endpoint
 import RumaModel.Lemmas.EndpointUrl
 import RumaModel.Lemmas.EndpointXMatrix
 import RumaModel.Lemmas.EndpointNoPanic
+import RumaModel.Lemmas.EndpointGlueResp
 import RumaModel.Generated.C16
 namespace Ruma.Props.C16
-open Ruma Ruma.Endpoint Ruma.Spec.Endpoint
+open Ruma Ruma.Endpoint Ruma.Spec.Endpoint Ruma.Glue
 
 /-! ## Path selection -/
 
@@ -276,6 +281,452 @@ example :
       = some ⟨bs "o.example", none, bs "ed25519:1", bs "a\"b"⟩ := by
   constructor <;> decide
 
+/-! ## The macro-generated request/response glue
+
+`ReqDesc` / `RespDesc` describe an endpoint the way `#[request]` / `#[response]` see it (ordered
+fields with their `#[ruma_api(..)]` kind); `tryIntoHttpRequest`, `tryFromHttpRequest`,
+`tryIntoHttpResponse`, `tryFromHttpResponse` are the model of the generated code
+(`Model/EndpointGlue.lean`); `deliver` is what lies between sender and receiver (cut the base URL
+off, split path and query, route the path, percent-decode the arguments). `FormCodec`, `JsonCodec`,
+`HttpLib` stand for `serde_html_form`, `serde_json` and `http::Uri` and are quantified over — every
+theorem holds for all implementations satisfying the stated laws. `refForm` is the executable
+reference form codec, proved to satisfy its law. -/
+
+/-! ### The query-string codec -/
+
+/-- **All byte strings.** The reference `application/x-www-form-urlencoded` parser (split on `&`,
+first `=`, `+` → space, `%XX`) reads back every list of pairs of arbitrary byte strings from what
+the reference serializer (`* - . _ 0-9 A-Z a-z` kept, space → `+`, the rest `%XX`) wrote: keys and
+values with `& = + % # ?`, spaces, controls, NUL, bytes that are not UTF-8, empty strings, the
+empty list, repeated keys. -/
+theorem query_roundtrip_all_bytes (ps : List (Str × Str))
+    (hb : ∀ p ∈ ps, IsBytes p.1 ∧ IsBytes p.2) : formParseBytes (formSerialize ps) = ps :=
+  formParseBytes_formSerialize ps hb
+
+/-- `String::from_utf8_lossy` (the step `form_urlencoded::parse` adds on top) changes nothing on
+well-formed UTF-8, so the parser as `serde_html_form` uses it reads back all Rust strings. -/
+theorem form_codec_lawful (ps : List (Str × Str))
+    (ht : ∀ p ∈ ps, utf8Valid p.1 = true ∧ utf8Valid p.2 = true) :
+    formParse (formSerialize ps) = ps ∧ 35 ∉ formSerialize ps :=
+  ⟨refForm_lawful.law ps ht, refForm_lawful.no_hash ps⟩
+
+example : formSerialize [(bs "a b", bs "x&y=z"), (bs "", bs "100%"), (bs "k", [195, 169]), (bs "k", bs "+#?")]
+      = bs "a+b=x%26y%3Dz&=100%25&k=%C3%A9&k=%2B%23%3F"
+    ∧ formParse (bs "a+b=x%26y%3Dz&=100%25&&k=%C3%A9&k=%2B%23%3F&novalue&%zz=%4")
+      = [(bs "a b", bs "x&y=z"), (bs "", bs "100%"), (bs "k", [195, 169]), (bs "k", bs "+#?"),
+         (bs "novalue", []), (bs "%zz", bs "%4")]
+    -- a percent escape that is not UTF-8 arrives as U+FFFD
+    ∧ formParse (bs "k=%FF%C3") = [(bs "k", [239, 191, 189, 239, 191, 189])]
+    ∧ utf8Valid [240, 159, 152, 128] = true ∧ utf8Valid [237, 160, 128] = false
+    ∧ utf8Valid [192, 128] = false := by
+  refine ⟨by decide +kernel, by decide +kernel, by decide +kernel, by decide, by decide, by decide⟩
+
+/-! ### Requests -/
+
+/-- The property for requests, at full strength: for every endpoint description the macro accepts
+(and whose generated tests pass), every value made of wire forms of values, and every message the
+encoder produces for it: the receiving side, after routing, reads back the value (and so its
+re-encoding is the identical message). **This does not hold** — see `request_statement_false`:
+findings F17 and F19 and descriptions with two header fields of one name are counterexamples. -/
+def RequestRoundtripStatement : Prop :=
+  ∀ (F : FormCodec) (J : JsonCodec) (H : HttpLib) (d : ReqDesc) (v : ReqVal) (base : Str)
+    (sat : SendAccessToken) (vs : List Version) (m : HttpRequest),
+    F.Lawful → J.Lawful → newOk d.history = true →
+    (∀ p ∈ allPaths d.history, ∀ b ∈ p, b = 47 ∨ segmentUnsafe b = false) →
+    d.macroAccepts = true → d.testsPass = true → v.Canon d → v.Text F d →
+    tryIntoHttpRequest F J H d v base sat vs = .ok m →
+    ∃ tmpl a, selectPath d.history vs = .ok tmpl ∧ deliver base tmpl m = some a
+      ∧ tryFromHttpRequest F J d a = .ok v
+
+/-- What is proved. For EVERY implementation of the form, JSON and URI libraries satisfying the
+stated laws, EVERY endpoint description `d` — any mix of path, query / `query_all`, header
+(mandatory or `Option`), body, newtype-body and raw-body fields — that `#[request]` accepts
+(`macroAccepts`), whose generated tests pass (`testsPass`: path fields = placeholders, no body on
+`GET`, distinct field names) and whose history `VersionHistory::new` accepts with URI-safe paths,
+EVERY value `v` whose field contents are wire forms of values of the fields' types (`Canon`) and
+Rust strings where they pass through text (`Text`), every base URL, access token and list of
+supported versions: if `try_into_http_request` produces the message `m`, then a server that routes
+`m` by the selected path template and hands it to `try_from_http_request` obtains exactly `v`, and
+re-encoding what it obtained gives exactly `m` again.
+
+Excluded, spelled out:
+ * `hhn`  — two header fields with the same header name (the second `insert` overwrites the first);
+ * `hvis` — **F19**: a header value with a byte that is not visible ASCII / space / tab
+            (`HeaderValue::from_str` accepts bytes ≥ 128, `to_str` on the receiving side refuses);
+ * `himp` — **F17**: an `Option` header field that is `None` while the generated code sets that
+            header itself (`Content-Type: application/json` whenever there is a body,
+            `Authorization` when a token is sent): it is read back as `Some(..)`.
+Finding **F18** lives one level below (`QueryFieldTypesStatement`): `Some("")` in an
+`Option<String>` query field is not the wire form of a value, so `Canon` does not hold for it. -/
+theorem request_roundtrip_partial (F : FormCodec) (J : JsonCodec) (H : HttpLib) (d : ReqDesc)
+    (v : ReqVal) (base : Str) (sat : SendAccessToken) (vs : List Version) (m : HttpRequest)
+    (hF : F.Lawful) (hJ : J.Lawful)
+    (hnew : newOk d.history = true)
+    (hsafe : ∀ p ∈ allPaths d.history, ∀ b ∈ p, b = 47 ∨ segmentUnsafe b = false)
+    (hmacro : d.macroAccepts = true) (htests : d.testsPass = true)
+    (hcanon : v.Canon d) (htext : v.Text F d)
+    (hhn : (d.headerFields.map (·.header)).Nodup)
+    (hvis : ∀ s, some s ∈ v.header → headerToStrOk s = true)
+    (himp : ∀ f, (f, none) ∈ d.headerFields.zip v.header → f.header ∉ implicitHeaders d sat)
+    (henc : tryIntoHttpRequest F J H d v base sat vs = .ok m) :
+    ∃ tmpl a, selectPath d.history vs = .ok tmpl ∧ deliver base tmpl m = some a
+      ∧ tryFromHttpRequest F J d a = .ok v
+      ∧ ∀ v', tryFromHttpRequest F J d a = .ok v' →
+          tryIntoHttpRequest F J H d v' base sat vs = .ok m := by
+  obtain ⟨tmpl, a, h1, h2, h3⟩ :=
+    request_roundtrip' F hF J hJ H d v base sat vs m hnew hsafe hmacro htests hhn hcanon htext hvis himp henc
+  refine ⟨tmpl, a, h1, h2, h3, ?_⟩
+  intro v' hv'
+  rw [h3] at hv'
+  cases hv'
+  exact henc
+
+/-- No modelled panic site of the generated code is reachable: for a description whose generated
+tests pass, a history `VersionHistory::new` accepted with paths starting in `/`, and any value of
+the struct, `try_into_http_request` ends in a message or in an `IntoHttpError` — never in one of
+the `expect`/`assert!`/`unreachable!` of `make_endpoint_url` / `select_path`. (The receiving side
+and both response conversions contain no `unwrap`/`expect`/index at all: their models have no
+`panic` outcome.) -/
+theorem glue_no_panic (F : FormCodec) (J : JsonCodec) (H : HttpLib) (d : ReqDesc) (v : ReqVal)
+    (base : Str) (sat : SendAccessToken) (vs : List Version)
+    (hnew : newOk d.history = true) (hslash : ∀ p ∈ allPaths d.history, p.head? = some 47)
+    (htests : d.testsPass = true) (hshape : v.shapeOk d = true) :
+    tryIntoHttpRequest F J H d v base sat vs ≠ .panic
+    ∧ tryIntoHttpRequest F J H d v base sat vs ≠ .illTyped := by
+  rcases tryInto_no_panic' F J H d v base sat vs hnew hslash htests hshape with ⟨m, h⟩ | ⟨e, h⟩
+  · rw [h]; constructor <;> (intro h'; cases h')
+  · rw [h]; constructor <;> (intro h'; cases h')
+
+/-- The receiving side's method rule: a `HEAD` request is accepted for a `GET` endpoint; any other
+method than the endpoint's is `MethodMismatch`, before anything else is looked at. -/
+theorem method_rule (F : FormCodec) (J : JsonCodec) (d : ReqDesc) (a : Arrived) :
+    (a.method ≠ d.method → ¬(a.method = mHEAD ∧ d.method = mGET) →
+      tryFromHttpRequest F J d a = .methodMismatch)
+    ∧ (d.method = mGET → tryFromHttpRequest F J d { a with method := mHEAD }
+        = tryFromHttpRequest F J d { a with method := mGET }) := by
+  constructor
+  · intro h1 h2
+    unfold tryFromHttpRequest
+    have : (decide (a.method = d.method) || (decide (a.method = mHEAD) && decide (d.method = mGET))) = false := by
+      simp only [Bool.or_eq_false_iff, decide_eq_false_iff_not, Bool.and_eq_false_imp,
+        decide_eq_true_eq]
+      exact ⟨h1, fun h3 h4 => h2 ⟨h3, h4⟩⟩
+    simp [this]
+  · intro hg
+    unfold tryFromHttpRequest
+    simp [hg]
+
+/-- The empty-body rule: a request without any body bytes is read exactly like the body `{}`. -/
+theorem empty_body_is_empty_object (F : FormCodec) (J : JsonCodec) (d : ReqDesc) (a : Arrived)
+    (hraw : d.hasRawBody = false) :
+    tryFromHttpRequest F J d { a with body := [] }
+      = tryFromHttpRequest F J d { a with body := bs "{}" } := by
+  unfold tryFromHttpRequest decodeJsonBody bodyOrEmptyObject
+  simp [hraw]
+
+/-! ### Witnesses: the model reproduces the recorded defects -/
+
+/-- A `JsonCodec` that refuses to write anything (lawful, trivially): enough for the witnesses
+below, none of which has a JSON body. -/
+def noJson : JsonCodec where
+  ser := fun _ => none
+  parse := fun b => if b = bs "{}" then some (.obj []) else none
+
+theorem noJson_lawful : noJson.Lawful where
+  law := by intro v b h; cases h
+  ser_ne := by intro v b h; cases h
+  empty_obj := by simp [noJson]
+
+def anyUri : HttpLib := ⟨fun _ => true⟩
+
+/-- `media::create_content`-like: raw body and an optional `Content-Type` header field. -/
+def dF17 : ReqDesc :=
+  ⟨bs "POST", .none, ⟨[bs "/_synthetic/upload"], [], none, none⟩,
+   [⟨bs "content_type", .header contentType true Ty.str⟩, ⟨bs "file", .rawBody⟩]⟩
+
+/-- **F17 on the model.** `content_type: None` is sent with the macros' own
+`Content-Type: application/json` and read back as `Some("application/json")`. -/
+theorem f17_witness :
+    let v : ReqVal := { header := [none], raw := [[1, 2, 3]] }
+    let m : HttpRequest := ⟨bs "POST", bs "https://h/_synthetic/upload",
+      [(contentType, applicationJson)], [1, 2, 3]⟩
+    dF17.macroAccepts = true ∧ dF17.testsPass = true ∧ newOk dF17.history = true
+    ∧ tryIntoHttpRequest refForm noJson anyUri dF17 v (bs "https://h") .none [] = .ok m
+    ∧ deliver (bs "https://h") (bs "/_synthetic/upload") m = some ⟨bs "POST", [], m.headers, m.body, []⟩
+    ∧ tryFromHttpRequest refForm noJson dF17 ⟨bs "POST", [], m.headers, m.body, []⟩
+        = .ok { header := [some applicationJson], raw := [[1, 2, 3]] } := by
+  refine ⟨by decide, by decide, by decide, by rfl, by rfl, by rfl⟩
+
+/-- A mandatory `String` header field. -/
+def dF19 : ReqDesc :=
+  ⟨bs "GET", .none, ⟨[bs "/_synthetic/h"], [], none, none⟩,
+   [⟨bs "h", .header (bs "if-match") false Ty.str⟩]⟩
+
+/-- **F19 on the model.** The header value `é` (bytes C3 A9) is accepted when sending and is a
+deserialization error when receiving. -/
+theorem f19_witness :
+    let v : ReqVal := { header := [some [195, 169]] }
+    let m : HttpRequest := ⟨bs "GET", bs "https://h/_synthetic/h", [(bs "if-match", [195, 169])], []⟩
+    tryIntoHttpRequest refForm noJson anyUri dF19 v (bs "https://h") .none [] = .ok m
+    ∧ deliver (bs "https://h") (bs "/_synthetic/h") m = some ⟨bs "GET", [], m.headers, [], []⟩
+    ∧ (match tryFromHttpRequest refForm noJson dF19 ⟨bs "GET", [], m.headers, [], []⟩ with
+       | .deser => true | _ => false) = true := by
+  refine ⟨by rfl, by rfl, by rfl⟩
+
+/-- The full-strength statement is false: the F17 description and value satisfy all its
+hypotheses, and the receiving side reads a different value. -/
+theorem request_statement_false : ¬ RequestRoundtripStatement := by
+  intro h
+  obtain ⟨hm, ht, hn, henc, hdel, hdec⟩ := f17_witness
+  have hcanon : ReqVal.Canon dF17 { header := [none], raw := [[1, 2, 3]] } :=
+    ⟨trivial, trivial, trivial, ⟨rfl, trivial⟩, trivial, trivial⟩
+  have htext : ReqVal.Text refForm dF17 { header := [none], raw := [[1, 2, 3]] } := by
+    constructor
+    · intro a ha; cases ha
+    · intro f hf; cases hf
+    · intro x hx; cases hx
+    · intro x hx; cases hx
+  obtain ⟨tmpl, a, hsel, hd, hdec'⟩ := h refForm noJson anyUri dF17 _ (bs "https://h") .none [] _
+    refForm_lawful noJson_lawful hn
+    (by decide) hm ht hcanon htext henc
+  have : tmpl = bs "/_synthetic/upload" := by
+    have : selectPath dF17.history [] = .ok (bs "/_synthetic/upload") := by decide
+    rw [this] at hsel
+    cases hsel
+    rfl
+  subst this
+  rw [hdel] at hd
+  cases hd
+  rw [hdec] at hdec'
+  have := congrArg (fun o => match o with | FromOut.ok v => v.header | _ => []) hdec'
+  simp at this
+
+/-! ### F18: one level below, the field types -/
+
+/-- Typed contents of a query field, for the string types the check's endpoints use. -/
+inductive QVal where
+  | str (s : Str)                  -- `String`
+  | optStr (o : Option Str)        -- `Option<String>`
+  | vecStr (l : List Str)          -- `Vec<String>` (`default`, `skip_serializing_if = "Vec::is_empty"`)
+
+/-- What `serde_html_form` writes under the field's key. -/
+def QVal.wire : QVal → List Str
+  | .str s => [s]
+  | .optStr none => []
+  | .optStr (some s) => [s]
+  | .vecStr l => l
+
+def QVal.codec : QVal → Codec (List Str)
+  | .str _ => Ty.qStr
+  | .optStr _ => Ty.qOptStr
+  | .vecStr _ => Ty.qVecStr
+
+/-- Full strength: whatever a query field holds, what is written for it is read back as the same
+content. **False**: F18. -/
+def QueryFieldTypesStatement : Prop := ∀ a : QVal, a.codec.Canon a.wire
+
+/-- All contents of `String`, `Option<String>` and `Vec<String>` query fields — every string, the
+empty string, any number of values — are read back unchanged, **except** `Some("")` in an
+`Option<String>` field. -/
+theorem query_field_types_partial (a : QVal) (h : a ≠ .optStr (some [])) : a.codec.Canon a.wire := by
+  cases a with
+  | str s => rfl
+  | vecStr l => rfl
+  | optStr o =>
+    cases o with
+    | none => rfl
+    | some s =>
+      have hs : s ≠ [] := fun e => h (by rw [e])
+      simp [QVal.codec, QVal.wire, Codec.Canon, Ty.qOptStr, hs]
+
+/-- **F18 on the model.** `Some("")` is written as `name=` and read back as `None`. -/
+theorem f18_witness :
+    (QVal.optStr (some [])).codec.norm (QVal.optStr (some [])).wire = some (QVal.optStr none).wire
+    ∧ ¬ QueryFieldTypesStatement := by
+  refine ⟨rfl, fun h => ?_⟩
+  have := h (.optStr (some []))
+  simp [QVal.codec, QVal.wire, Codec.Canon, Ty.qOptStr] at this
+
+/-- …and end to end: an endpoint with one `Option<String>` query field sends `?oq=` for
+`Some("")`, and the receiving side obtains `None`. -/
+example :
+    let d : ReqDesc := ⟨bs "GET", .none, ⟨[bs "/_synthetic/q"], [], none, none⟩,
+      [⟨bs "oq", .query Ty.qOptStr⟩]⟩
+    let m : HttpRequest := ⟨bs "GET", bs "https://h/_synthetic/q?oq=", [], []⟩
+    tryIntoHttpRequest refForm noJson anyUri d { query := [[[]]] } (bs "https://h") .none [] = .ok m
+    ∧ deliver (bs "https://h") (bs "/_synthetic/q") m = some ⟨bs "GET", bs "oq=", [], [], []⟩
+    ∧ tryFromHttpRequest refForm noJson d ⟨bs "GET", bs "oq=", [], [], []⟩ = .ok { query := [[]] } := by
+  refine ⟨by rfl, by rfl, by rfl⟩
+
+/-! ### Responses -/
+
+/-- The property for responses at full strength (false for the same two reasons as for requests:
+F19, and F17's response-side twin — an `Option` header field named `Content-Type` that is `None`). -/
+def ResponseRoundtripStatement : Prop :=
+  ∀ (J : JsonCodec) (d : RespDesc) (v : RespVal) (r : HttpResponse),
+    J.Lawful → d.macroAccepts = true → d.supported = true → d.status < 400 → v.Canon d →
+    tryIntoHttpResponse J d v = .ok r → tryFromHttpResponse J d r = .ok v
+
+/-- For EVERY lawful JSON library, EVERY response description `#[response]` accepts (header, body,
+newtype-body, raw-body fields; `status = ..`; `manual_body_serde`) with a success status, and
+EVERY value made of wire forms of values: what `try_into_http_response` produces is read back by
+`try_from_http_response` as the same value, and re-encoding that gives the identical response
+(status, headers, body bytes). Excluded, spelled out: two header fields of one name (`hhn`),
+header values that are not visible ASCII (`hvis`, **F19**), and an `Option` header field named
+`Content-Type` holding `None` (`himp`, the response-side form of **F17**: the builder always sets
+`Content-Type: application/json`). -/
+theorem response_roundtrip_partial (J : JsonCodec) (d : RespDesc) (v : RespVal) (r : HttpResponse)
+    (hJ : J.Lawful) (hmacro : d.macroAccepts = true) (hsup : d.supported = true) (hstatus : d.status < 400)
+    (hcanon : v.Canon d)
+    (hhn : (d.headerFields.map (·.header)).Nodup)
+    (hvis : ∀ s, some s ∈ v.header → headerToStrOk s = true)
+    (himp : ∀ f, (f, none) ∈ d.headerFields.zip v.header → f.header ≠ contentType)
+    (henc : tryIntoHttpResponse J d v = .ok r) :
+    tryFromHttpResponse J d r = .ok v
+    ∧ ∀ v', tryFromHttpResponse J d r = .ok v' → tryIntoHttpResponse J d v' = .ok r := by
+  have h := response_roundtrip' J hJ d v r hmacro hsup hstatus hhn hcanon hvis himp henc
+  refine ⟨h, ?_⟩
+  intro v' hv'
+  rw [h] at hv'
+  cases hv'
+  exact henc
+
+/-- The error path: a status of 400 or above is never read as a value of the endpoint — it goes to
+the endpoint's error type (`FromHttpResponseError::Server`), whatever headers and body it has; and
+a status below 400 is never taken for a server error. -/
+theorem response_error_path (J : JsonCodec) (d : RespDesc) (r : HttpResponse) :
+    (400 ≤ r.status → tryFromHttpResponse J d r = .server)
+    ∧ (r.status < 400 → tryFromHttpResponse J d r ≠ .server) := by
+  constructor
+  · intro h
+    unfold tryFromHttpResponse
+    simp [Nat.not_lt.2 h]
+  · intro h
+    unfold tryFromHttpResponse
+    simp only [h, if_true]
+    cases decodeRespBody J d r.body with
+    | methodMismatch => simp
+    | deser => simp
+    | outside => simp
+    | ok p =>
+      obtain ⟨b, w⟩ := p
+      simp only
+      cases decodeRespHeaders r.headers d.headerFields <;> simp
+
+/-- The response-side witness: `Content-Type` as an optional header field holding `None`. -/
+theorem response_statement_false : ¬ ResponseRoundtripStatement := by
+  intro h
+  let d : RespDesc := ⟨200, none, [⟨bs "content_type", .header contentType true Ty.str⟩, ⟨bs "file", .rawBody⟩]⟩
+  let v : RespVal := { header := [none], raw := [[7]] }
+  have henc : tryIntoHttpResponse noJson d v = .ok ⟨200, [(contentType, applicationJson)], [7]⟩ := by rfl
+  have hdec : tryFromHttpResponse noJson d ⟨200, [(contentType, applicationJson)], [7]⟩
+      = .ok { header := [some applicationJson], raw := [[7]] } := by rfl
+  have := h noJson d v _ noJson_lawful (by decide) (by decide) (by decide) ⟨⟨rfl, trivial⟩, trivial⟩ henc
+  rw [hdec] at this
+  have := congrArg (fun o => match o with | FromResp.ok v => v.header | _ => []) this
+  simp [v] at this
+
+/-! ### The hypotheses are satisfiable: a description with every kind of field -/
+
+/-- `PUT /_synthetic/v1/all/:a/x/:b?q=..&oq=..&mq=..&mq=..` with two path fields, three query fields,
+a mandatory and an optional header, three body fields. -/
+def dAll : ReqDesc :=
+  ⟨bs "PUT", .accessToken,
+   ⟨[bs "/_synthetic/unstable/all/:a/x/:b"], [(1, bs "/_synthetic/v1/all/:a/x/:b")], none, none⟩,
+   [⟨bs "a", .path Ty.str⟩, ⟨bs "q", .query Ty.qStr⟩, ⟨bs "lang", .header (bs "content-language") false Ty.str⟩,
+    ⟨bs "s", .body Ty.bStr⟩, ⟨bs "b", .path Ty.str⟩, ⟨bs "oq", .query Ty.qOptStr⟩,
+    ⟨bs "o", .body Ty.bOptStr⟩, ⟨bs "mq", .query Ty.qVecStr⟩, ⟨bs "h", .header (bs "if-match") true Ty.str⟩,
+    ⟨bs "v", .body Ty.bVecStr⟩]⟩
+
+def vAll : ReqVal :=
+  { path := [bs "a%41/b", bs "?#+ " ++ [195, 169]], query := [[bs "x&y=z"], [], [bs "", bs "1 2"]],
+    header := [some (bs "en, fr"), none],
+    body := [some (.str (bs "s\"")), none, some (.arr [.str (bs "1")])] }
+
+example :
+    dAll.macroAccepts = true ∧ dAll.testsPass = true ∧ newOk dAll.history = true
+    ∧ (∀ p ∈ allPaths dAll.history, ∀ b ∈ p, b = 47 ∨ segmentUnsafe b = false)
+    ∧ (∀ p ∈ allPaths dAll.history, p.head? = some 47)
+    ∧ (dAll.headerFields.map (·.header)).Nodup ∧ vAll.shapeOk dAll = true
+    ∧ vAll.Canon dAll ∧ vAll.Text refForm dAll
+    ∧ (∀ s, some s ∈ vAll.header → headerToStrOk s = true)
+    ∧ (∀ f, (f, none) ∈ dAll.headerFields.zip vAll.header →
+        f.header ∉ implicitHeaders dAll (.ifRequired (bs "tok"))) := by
+  refine ⟨by decide, by decide, by decide, by decide +kernel, by decide, by decide, by decide, ?_, ?_, ?_, ?_⟩
+  · exact ⟨⟨rfl, rfl, trivial⟩, ⟨rfl, rfl, rfl, trivial⟩, trivial, ⟨rfl, rfl, trivial⟩,
+      ⟨rfl, rfl, rfl, trivial⟩, trivial⟩
+  · constructor
+    · intro a ha
+      simp only [vAll, List.mem_cons, List.mem_nil_iff, or_false] at ha
+      rcases ha with rfl | rfl <;> (intro b hb; revert b; decide)
+    · show ∀ f ∈ [(bs "q", Ty.qStr), (bs "oq", Ty.qOptStr), (bs "mq", Ty.qVecStr)], utf8Valid f.1 = true
+      intro f hf
+      simp only [List.mem_cons, List.mem_nil_iff, or_false] at hf
+      rcases hf with rfl | rfl | rfl <;> decide
+    · show ∀ vs ∈ [[bs "x&y=z"], [], [bs "", bs "1 2"]], ∀ s ∈ vs, utf8Valid s = true
+      decide
+    · intro ps hps; cases hps
+  · intro s hs
+    simp only [vAll, List.mem_cons, Option.some.injEq, reduceCtorEq, List.mem_nil_iff, or_false] at hs
+    subst hs
+    decide
+  · intro f hf
+    have : f.header = bs "if-match" := by
+      simp only [dAll, vAll, ReqDesc.headerFields, List.filterMap, ReqField.asHeader, List.zip,
+        List.zipWith, List.mem_cons, Prod.mk.injEq, reduceCtorEq, and_false, false_or,
+        List.mem_nil_iff, or_false, and_true] at hf
+      rw [hf]
+    rw [this]
+    decide
+
+/-- The same kinds of values through an endpoint without a JSON body, computed: the message the
+sender writes, what arrives after routing, what the receiver reads. -/
+example :
+    let d : ReqDesc := ⟨bs "POST", .accessTokenOptional,
+      ⟨[bs "/_synthetic/unstable/raw/:name/upload"], [], none, none⟩,
+      [⟨bs "name", .path Ty.str⟩, ⟨bs "q", .query Ty.qStr⟩, ⟨bs "mq", .query Ty.qVecStr⟩,
+       ⟨bs "content_type", .header contentType false Ty.str⟩, ⟨bs "file", .rawBody⟩]⟩
+    let v : ReqVal := { path := [bs "a%41/b ?"], query := [[bs "x&y=z"], [bs "", bs "1 2"]],
+                        header := [some (bs "image/png")], raw := [[0, 255]] }
+    let m : HttpRequest := ⟨bs "POST",
+      bs "https://h/_synthetic/unstable/raw/a%2541%2Fb%20%3F/upload?q=x%26y%3Dz&mq=&mq=1+2",
+      [(contentType, bs "image/png"), (authorization, bs "Bearer tok")], [0, 255]⟩
+    tryIntoHttpRequest refForm noJson anyUri d v (bs "https://h/") (.ifRequired (bs "tok")) [3] = .ok m
+    ∧ deliver (bs "https://h/") (bs "/_synthetic/unstable/raw/:name/upload") m
+        = some ⟨bs "POST", bs "q=x%26y%3Dz&mq=&mq=1+2", m.headers, [0, 255], [bs "a%41/b ?"]⟩
+    ∧ (match tryFromHttpRequest refForm noJson d
+          ⟨bs "POST", bs "q=x%26y%3Dz&mq=&mq=1+2", m.headers, [0, 255], [bs "a%41/b ?"]⟩ with
+       | .ok v' => (v'.path, v'.query, v'.queryAll, v'.header, v'.raw, v'.body.length, v'.newtype.length)
+                    == (v.path, v.query, v.queryAll, v.header, v.raw, 0, 0)
+       | _ => false) = true := by
+  refine ⟨by decide +kernel, by decide +kernel, by decide +kernel⟩
+
+/-- A response description with every kind of field, and a value. -/
+example :
+    let d : RespDesc := ⟨201, none, [⟨bs "etag", .header (bs "etag") true Ty.str⟩, ⟨bs "s", .body Ty.bStr⟩,
+      ⟨bs "loc", .header (bs "location") false Ty.str⟩, ⟨bs "o", .body Ty.bOptStr⟩]⟩
+    let v : RespVal := { header := [none, some (bs "/x")], body := [some (.str (bs "s")), none] }
+    d.macroAccepts = true ∧ d.supported = true ∧ d.status < 400 ∧ v.Canon d ∧ v.shapeOk d = true
+    ∧ (d.headerFields.map (·.header)).Nodup := by
+  refine ⟨by decide, by decide, by decide, ⟨⟨rfl, rfl, trivial⟩, ⟨rfl, rfl, trivial⟩⟩, by decide, by decide⟩
+
+/-! ### The synthetic endpoints of the differential check satisfy the hypotheses -/
+
+/-- T1 for the glue: every request and response description the harness extracted from the
+stringified input of the real `#[request]` / `#[response]` macros is one the macro accepts, passes
+the generated tests, has a history `VersionHistory::new` accepts with URI-safe paths starting in
+`/`, and distinct header names — so `request_roundtrip_partial`, `response_roundtrip_partial` and
+`glue_no_panic` apply to each of them. -/
+theorem generated_glue_descriptors_accepted :
+    Generated.C16.glueReq.all (fun d =>
+      d.macroAccepts && d.testsPass && newOk d.history
+      && (allPaths d.history).all (fun p => p.head? == some 47 && p.all (fun b => b == 47 || !segmentUnsafe b))
+      && decide (d.headerFields.map (·.header)).Nodup) = true
+    ∧ Generated.C16.glueResp.all (fun d =>
+      d.macroAccepts && d.supported && decide (d.status < 400)
+      && decide (d.headerFields.map (·.header)).Nodup) = true := by
+  constructor <;> decide +kernel
+
 #print axioms generated_histories_valid
 #print axioms selectPath_spec
 #print axioms spec_select_is_the_rule
@@ -292,5 +743,21 @@ example :
 #print axioms authorization_header_table
 #print axioms bearer_header
 #print axioms xmatrix_roundtrip
+#print axioms query_roundtrip_all_bytes
+#print axioms form_codec_lawful
+#print axioms request_roundtrip_partial
+#print axioms glue_no_panic
+#print axioms method_rule
+#print axioms empty_body_is_empty_object
+#print axioms f17_witness
+#print axioms f19_witness
+#print axioms request_statement_false
+#print axioms query_field_types_partial
+#print axioms f18_witness
+#print axioms response_roundtrip_partial
+#print axioms response_error_path
+#print axioms response_statement_false
+
+#print axioms generated_glue_descriptors_accepted
 
 end Ruma.Props.C16
